@@ -5,16 +5,35 @@ every interleaving, refuted for the pinned one.  Tie: the REAL ProcessManager.cx
 driver.cxx; waitpid / fork / the global mutexes are observed by link-time wrappers (no source hook); the waitpid wrapper
 is the schedule control (hold the blocking waitpid of wait() until the SIGCHLD handler has reaped).  Every execute() is
 turned into a model trace and fed to the extracted acceptor; the reported verdict is compared with how the command
-really ended (known by construction)."""
-import os, re, threading
+really ended (known by construction).
+
+Second part (handler lifetime F19, lock discipline of the signal handler F22): C30SigModel.v is a transition system over any
+number of threads / managers / handlers / signals (treatAction copying the handlers, calling them with or without
+callbacksAccess, removeHandler + ~ProcessManager, sections of processesAccess with or without the signals blocked,
+terminateHandler).  Proved for every interleaving of the repaired protocol: no handler body runs for a destroyed manager, no
+thread waits for a mutex it holds, wait chains end; refuted with concrete schedules for the pinned one.  Tie: the driver
+also wraps sigaction, SignalManager::registerHandler/removeHandler (proxy handlers, tombstones) and knows the owners of
+the two mutexes; forced schedules (`lifetime`, `stale`, `storm P|C`, `terminate`) and the multi-thread scenarios are
+translated to model events (sigtrace.py) and judged by the extracted acceptor under several protocols: the code is
+classified per aspect, a breach is reported only when it is observed on a real trace."""
+import os, re, sys, threading
+sys.path.insert(0, os.path.dirname(os.path.abspath(__file__)))
+import sigtrace
 from concurrent.futures import ThreadPoolExecutor
 from vlib import guarded_main
 
 REPO_SOURCES = ["src/System/ProcessManager.cxx", "src/System/SignalManager.cxx", "src/System/SignalHandler.cxx",
                 "src/System/System.cxx", "src/System/SystemError.cxx", "src/System/ProcessManager-c.c",
                 "src/Exception/TFELException.cxx"]
-WRAP = ["-Wl,--wrap=" + f for f in ("waitpid", "fork", "pthread_mutex_lock", "pthread_mutex_unlock")]
+WRAP = ["-Wl,--wrap=" + f for f in ("waitpid", "fork", "pthread_mutex_lock", "pthread_mutex_unlock", "sigaction",
+                                      "_ZN4tfel6system13SignalManager15registerHandlerEiPNS0_13SignalHandlerER9sigaction",
+                                      "_ZN4tfel6system13SignalManager13removeHandlerEm")]
 MODEL = ["C30Spec.v", "C30Model.v"]
+SIGMODEL = ["C30SigModel.v"]
+EXTRACT_SIG = """From Coq Require Import ExtrOcamlBasic.
+From C30 Require Import C30SigModel.
+Extraction "c30sig_model.ml" step_fn init bad_body self_wait running_body is_dead mem Current.
+"""
 EXTRACT = """From Coq Require Import ExtrOcamlBasic.
 From C30 Require Import C30Spec C30Model.
 Extraction "c30_model.ml" step_fn init.
@@ -141,16 +160,133 @@ def translate(evs):
     return recs
 
 
+FORCED = {"lifetime": "F19:handler-called-after-removal", "stale": "F19:stale-sigterm-handler",
+          "storm-P": "F22:sigchld-in-findProcess", "storm-C": "F22:sigchld-in-registerHandler",
+          "terminate": "F22:terminateHandler-relock"}
+PROTOS = [("len", {}), ("bp", {"bp": 1}), ("bc", {"bc": 1}), ("fg", {"fg": "-"}), ("rl", {"rl": 0}),
+          ("strict", dict(sigtrace.STRICT))]
+
+
+def judge_sig(c, acc_sig, runs):
+    """runs: list of (name, scenario text, rc, events, stderr).  Returns the classification of the code."""
+    text = []
+    tr = {}
+    for ix, (name, txt, rc, evs, err) in enumerate(runs):
+        for dl in (0, 1):
+            lines, posl, stop = sigtrace.translate(evs, dl)
+            tr[(ix, dl)] = (lines, posl, stop)
+            for tag, over in PROTOS:
+                fl = dict(sigtrace.LENIENT)
+                fl.update(over)
+                text.append(sigtrace.proto_line("%d:%d:%s" % (ix, dl, tag), dl, fl))
+                text.extend(lines)
+                text.append("END")
+    rc, out, err = c.run([acc_sig], input="\n".join(text) + "\n", timeout=900)
+    res = {}
+    for l in out.splitlines():
+        t = l.split(" ", 2)
+        if len(t) >= 2 and t[0] in ("ACCEPT", "REJECT"):
+            i, dl, tag = t[1].split(":")
+            res[(int(i), int(dl), tag)] = (t[0] == "ACCEPT", t[2] if len(t) > 2 else "")
+    if len(res) != len(runs) * 2 * len(PROTOS):
+        c.report("acceptor-sig", "the extracted acceptor of C30SigModel judged %d of %d traces (rc=%d): %s" % (
+            len(res), len(runs) * 2 * len(PROTOS), rc, err[-300:]), {}, False)
+    ok = lambda i, dl, tag: res.get((i, dl, tag), (False, ""))[0]
+    n = range(len(runs))
+    # the variant (handlers called with / without callbacksAccess) that explains more traces; traces that fit neither are reported
+    dl = 1 if sum(1 for i in n if ok(i, 1, "len")) >= sum(1 for i in n if ok(i, 0, "len")) else 0
+    fits = [i for i in n if ok(i, dl, "len")]
+    flags = {tag: all(ok(i, dl, tag) for i in fits) for tag, _ in PROTOS}
+    cls = {"dispatch_locked": bool(dl), "block_P": flags["bp"], "block_C": flags["bc"], "dtor_removes_all": flags["fg"],
+           "no_relock": flags["rl"]}
+    lifetime_ok = cls["dispatch_locked"] and cls["dtor_removes_all"]
+    lock_ok = cls["block_P"] and cls["block_C"] and cls["no_relock"]
+    c.log("signal-handler protocol of the code: %s -> lifetime %s, lock discipline %s" % (
+        cls, "repaired" if lifetime_ok else "pinned", "repaired" if lock_ok else "pinned"))
+    accepted = 0
+    breaches = set()
+    for ix, (name, txt, rc, evs, err) in enumerate(runs):
+        lines, posl, stop = tr[(ix, dl)]
+        good, why = res.get((ix, dl, "len"), (False, "no verdict"))
+        base = name.split("#")[0]
+        rep = {"scenario_name": name, "scenario": txt, "driver_exit_status": rc, "protocol_variant": "handlers called %s callbacksAccess" % ("with" if dl else "without"),
+               "model_events_tail": lines[-60:], "how": "props/C30/driver < scenario; log -> sigtrace.translate -> acceptor_sig (C30SigModel.step_fn)"}
+        c.count(1, ("sig", name), any(x.startswith("HX") for x in lines))
+        if not good:
+            m = re.search(r"at=(\d+)", why)
+            at = int(m.group(1)) if m else 0
+            rep["log_around_the_rejected_event"] = sigtrace.show(evs, posl[at] - 25, posl[at] + 5) if at < len(posl) else []
+            rep["model_events_tail"] = lines[max(0, at - 40):at + 3]
+            c.report("reject-sig:%s" % name, "scenario %s: the trace of the real SignalManager/ProcessManager is not a run of C30SigModel (any protocol): %s" % (
+                name, why), rep, True)
+            continue
+        accepted += 1
+        m = re.match(r"bad=(\S+)", why)
+        bad = m.group(1) if m else "none"
+        kind = None
+        if stop is not None and stop[0] in ("deleted", "dead"):
+            kind = "body"
+        elif stop is not None and stop[0].startswith("selflock"):
+            kind = "selfwait"
+        elif bad != "none":
+            kind = "body" if bad.startswith("body") else "selfwait"
+        if ix % 5 == 0:
+            c.sample({"scenario": name, "sig_model_events_head": lines[:14], "events": len(lines), "breach": bad})
+        if kind is None:
+            continue
+        pos = stop[1] if stop is not None else posl[int(bad.split("@")[1])]
+        rep["log_before_the_breach"] = sigtrace.show(evs, pos - 45, pos)
+        rep["model_verdict_on_the_reached_state"] = bad
+        rep["driver_observation"] = list(stop) if stop is not None else None
+        if (kind == "body") != bad.startswith("body") or bad == "none":
+            c.report("unexplained:%s" % name, "scenario %s: the driver observed %s but the model state reached by the same trace says %s" % (
+                name, stop, bad), rep, True)
+            continue
+        breaches.add(kind)
+        if kind == "body":
+            what = ("scenario %s: thread %d, inside SignalManager::treatAction, calls handler %s %s (model: %s)" % (
+                name, stop[2] if stop else -1, stop[3] if stop else "?", "which removeHandler has deleted" if (stop and stop[0] == "deleted") else
+                "of a ProcessManager whose destructor has returned", bad))
+            aspect_ok = lifetime_ok
+            key = FORCED[base] if base in ("lifetime", "stale") else (
+                "F19:concurrent-managers" if base.startswith("threads") or base == "replay" else "breach:%s:body" % base)
+        else:
+            what = ("scenario %s: thread %d locks %s, which it already holds (%s) (model: %s)" % (
+                name, stop[2] if stop else -1, "callbacksAccess" if (stop and stop[0] == "selflock-C") else "processesAccess",
+                "the signal handler interrupted the holder" if not any(x.startswith("BR") for x in lines[-2:]) else
+                "terminateHandler -> sendSignal -> findProcess", bad))
+            aspect_ok = lock_ok
+            key = FORCED[base] if base in ("storm-P", "storm-C", "terminate") else (
+                "F22:deadlock-sigchld-handler" if base.startswith("threads") or base == "replay" else "breach:%s:selfwait" % base)
+        if aspect_ok:
+            key = "breach:%s:%s" % (name, kind)   # the code follows the repaired protocol: this must not happen
+        c.report(key, what, rep, True)
+    # every weakness of the protocol must have been exhibited by a forced schedule
+    if not lifetime_ok and "body" not in breaches:
+        c.report("sig-protocol:lifetime", "the code does not follow the repaired handler-lifetime protocol (%s) but no schedule exhibiting a handler "
+                 "body for a destroyed manager was observed" % cls, {"classification": cls}, False)
+    if not lock_ok and "selfwait" not in breaches:
+        c.report("sig-protocol:locks", "the code does not follow the repaired lock discipline (%s) but no schedule exhibiting a thread locking a mutex it "
+                 "holds was observed" % cls, {"classification": cls}, False)
+    return cls, lifetime_ok, lock_ok, accepted
+
+
 def main(c):
     exe = c.cxx("driver", ["driver.cxx"], REPO_SOURCES, libs=WRAP)
     c.log("driver built")
-    acc = c.ocaml_extract("c30", MODEL, EXTRACT, "acceptor.ml")
-    c.log("acceptor extracted")
-    c.trusted("link-time wrappers of waitpid / fork / pthread_mutex_lock / pthread_mutex_unlock in props/C30/driver.cxx (log, schedule control, "
+    with ThreadPoolExecutor(max_workers=2) as ex:
+        f1 = ex.submit(c.ocaml_extract, "c30", MODEL, EXTRACT, "acceptor.ml")
+        f2 = ex.submit(c.ocaml_extract, "c30sig", SIGMODEL, EXTRACT_SIG, "acceptor_sig.ml")
+        acc, acc_sig = f1.result(), f2.result()
+    c.log("acceptors extracted")
+    c.trusted("link-time wrappers of waitpid / fork / pthread_mutex_lock / pthread_mutex_unlock / sigaction / SignalManager::registerHandler / "
+              "SignalManager::removeHandler in props/C30/driver.cxx (log, schedule control, proxy handlers and tombstones, owner of each mutex, "
               "optional choice of the unspecified status word after a failed waitpid)",
               "python translation of the log of each execute() into model events, including the choice of a linearisation where the log "
-              "order of two threads does not determine the real order (props/C30/check.py translate)",
-              "POSIX waitpid / SIGCHLD semantics as written in C30Model.v; the ground truth of each command (the helper `driver --child ms code`)")
+              "order of two threads does not determine the real order (props/C30/check.py translate); python translation of the whole log of a "
+              "scenario into events of C30SigModel (props/C30/sigtrace.py)",
+              "POSIX waitpid / SIGCHLD / signal-mask semantics as written in C30Model.v and C30SigModel.v; the ground truth of each command "
+              "(the helper `driver --child ms code`)")
     if c.replay:
         scen = [(c.replay["replay"].get("scenario_name", "replay"), c.replay["replay"]["scenario"])]
     else:
@@ -160,10 +296,19 @@ def main(c):
                 ("handler-first-exit0-poison-sig9", "threads 1\ncmd 0 0 20 handler-first sig9\n"),
                 ("handler-first-exit0-poison-unknown", "threads 1\ncmd 0 0 20 handler-first unknown\n"),
                 ("handler-first-exit0-poison-stopped", "threads 1\ncmd 0 0 20 handler-first stopped\n"),
-                ("handler-first-exit0-no-poison", "threads 1\ncmd 0 0 20 handler-first none\ncmd 0 5 20 handler-first none\ncmd 0 -9 20 handler-first none\n")]
+                ("handler-first-exit0-no-poison", "threads 1\ncmd 0 0 20 handler-first none\ncmd 0 5 20 handler-first none\ncmd 0 -9 20 handler-first none\n"),
+                ("interrupted", "threads 1\ncmd 0 3 120 interrupted none\ncmd 0 0 120 interrupted none\ncmd 0 -9 120 interrupted none\n"),
+                # forced schedules of the signal-handler part
+                ("lifetime", "lifetime %d\n" % c.pick(40, 300)),
+                ("stale", "stale\n"),
+                ("storm-P", "storm P\nthreads 1\ncmd 0 0 30 none none\ncmd 0 3 0 none none\ncmd 0 -9 10 none none\n"),
+                ("storm-C", "storm C\nthreads 1\ncmd 0 0 30 none none\ncmd 0 3 0 none none\n"),
+                ("terminate", "terminate\n")]
         for i in range(c.pick(6, 80)):
             nt = c.rng.choice([2, 2, 4, 4, 8, 16])
             txt = "threads %d\n" % nt
+            if i % 3 == 2:
+                txt += "churn 1\n"   # one ProcessManager per command, destroyed at once, as tfel-check does
             for t in range(nt):
                 for _ in range(c.rng.randint(2, 4)):
                     txt += "cmd %d %d %d %s none\n" % (t, c.rng.choice([0, 0, 0, 1, 2, 3, 42, 255, -9, -15]), c.rng.choice([0, 1, 5, 10, 25]),
@@ -173,31 +318,72 @@ def main(c):
     lock = threading.Lock()
 
     def run_one(ix):
-        rc, out, err = c.run([exe], input=scen[ix][1], timeout=300)
+        logf = os.path.join(c.work, "log_%d.bin" % ix)
+        rc, out, err = c.run([exe], input=scen[ix][1], timeout=300, env={"C30_LOG": logf})
+        evs = sigtrace.parse_text(out)
+        if not evs:
+            evs = sigtrace.parse_bin(logf)   # the driver died before printing its log
+        try:
+            os.remove(logf)
+        except OSError:
+            pass
         with lock:
-            results[ix] = (rc, out, err)
+            results[ix] = (rc, evs, err)
 
     with ThreadPoolExecutor(max_workers=3) as ex:
         list(ex.map(run_one, range(len(scen))))
-    c.log("%d scenarios run on the real ProcessManager" % len(scen))
+    c.log("%d scenarios run on the real ProcessManager / SignalManager" % len(scen))
     allrecs = []
     text = ""
+    sigruns = []
     for ix, (name, txt) in enumerate(scen):
-        rc, out, err = results[ix]
+        rc, evs, err = results[ix]
+        base = name.split("#")[0]
+        if rc == 124 and not any(e[1] == "SELFLOCK" for e in evs):
+            rc = 97   # the harness had to kill the driver: judged like a hang seen by its own watchdog
         if rc == 97:
             stacks = [l[:160] for l in err.splitlines() if l.startswith("#") or l.startswith("Thread")]
-            if any("sigChildHandler" in l for l in stacks) and any("<signal handler called>" in l for l in stacks):
+            alloc = [l for l in stacks if re.search(r"malloc|_int_free|__libc_free|operator new|operator delete|arena", l)]
+            if alloc and any("<signal handler called>" in l for l in stacks) and any("treatAction" in l for l in stacks):
+                c.report("F24:allocation-in-signal-handler", "scenario %s did not finish: a thread is blocked in the memory allocator below "
+                         "SignalManager::treatAction, called from the signal handler (the handlers allocate memory: not async-signal-safe)" % name,
+                         {"scenario_name": name, "scenario": txt, "stacks_of_all_threads_after_60s": stacks[:160]}, True)
+            elif any("sigChildHandler" in l for l in stacks) and any("<signal handler called>" in l for l in stacks):
                 c.report("F22:deadlock-sigchld-handler", "scenario %s did not finish: threads are blocked in ProcessManager::sigChildHandler, called from the SIGCHLD "
                          "signal handler, on the non-recursive mutex processesAccess already held by the interrupted thread" % name,
                          {"scenario_name": name, "scenario": txt, "stacks_of_all_threads_after_60s": stacks[:120]}, True)
-                continue
-        if rc != 0 or not out:
-            c.report("driver:" + name, "driver failed (rc=%d) on scenario %s: %s" % (rc, name, err[-400:]),
-                     {"scenario_name": name, "scenario": txt, "stderr": err[-2000:]}, False)
+            else:
+                c.report("hang:" + name, "scenario %s did not finish within 60 s" % name,
+                         {"scenario_name": name, "scenario": txt, "stacks_of_all_threads_after_60s": stacks[:120],
+                          "log_tail": sigtrace.show(evs, len(evs) - 60, len(evs))}, True)
             continue
-        for rec in translate(parse(out)):
+        expected_rc = (0, 96) if base != "terminate" else (1, 96)
+        if rc < 0 and evs:
+            why = sigtrace.f19_crash_evidence(evs)
+            if why is not None:
+                c.report("F19:concurrent-managers", "scenario %s: the driver was killed by signal %d: %s" % (name, -rc, why),
+                         {"scenario_name": name, "scenario": txt, "log_tail": sigtrace.show(evs, len(evs) - 80, len(evs))}, True)
+                continue
+        if rc not in expected_rc or not evs:
+            c.report("driver:" + name, "driver ended with status %d on scenario %s: %s" % (rc, name, err[-400:]),
+                     {"scenario_name": name, "scenario": txt, "stderr": err[-2000:], "log_tail": sigtrace.show(evs, len(evs) - 60, len(evs))}, False)
+            if not evs:
+                continue
+        sigruns.append((name, txt, rc, evs, err))
+        if base == "stale" and not any(e[1] == "NOTE" and e[2] == 1 for e in evs):
+            c.report("outcome:stale", "scenario stale: the process did not survive a SIGTERM raised after the destruction of its only ProcessManager",
+                     {"scenario": txt, "log_tail": sigtrace.show(evs, len(evs) - 40, len(evs))}, True)
+        if base == "terminate" and rc == 1:
+            pids = [e[3] for e in evs if e[1] == "NOTE" and e[2] == 2]
+            reaped = any(e[1] == "WAITPID_RET" and pids and e[2] == pids[0] and e[3] == pids[0] for e in evs)
+            if not reaped or any(e[1] == "NOTE" and e[2] == 3 for e in evs):
+                c.report("outcome:terminate", "scenario terminate: SIGTERM with a running child: terminateHandler did not kill and reap the child before leaving",
+                         {"scenario": txt, "log_tail": sigtrace.show(evs, len(evs) - 40, len(evs))}, True)
+        for rec in translate([(e[0], e[1], e[2], e[3], e[4]) for e in evs]):
             rec["scenario"], rec["scenario_text"] = name, txt
             rec["id"] = len(allrecs)
+            rec["foreign_reap"] = [" ".join(str(x) for x in (p,) + e) for p, e in enumerate(evs)
+                                   if e[1] == "WNOHANG_RET" and e[2] != rec["pid"] and e[3] == rec["pid"]]
             allrecs.append(rec)
             for (kind, hs), lines in rec["variants"].items():
                 text += "T %d:%s:%s %s\n%s\nEND\n" % (rec["id"], kind, hs, kind, "\n".join(lines))
@@ -230,40 +416,51 @@ def main(c):
                "reported": vname(r["verdict"]), "expected": vname(exp), "log_of_this_child": [" ".join(str(x) for x in e) for e in r["raw"]],
                "model_events": {"%s/%s" % k: v for k, v in r["variants"].items()},
                "how": "props/C30/driver < scenario (driver --child <ms> <code> is the command)"}
+        if r["foreign_reap"]:
+            rep["child_reaped_by_a_waitpid_on_another_pid"] = r["foreign_reap"]
         if r["id"] % 7 == 0:
             c.sample({"scenario": name, "command_ends_with": r["code"], "reported": vname(r["verdict"]),
                       "model_events": r["variants"].get((kind, "late")), "waitpid_failed": r["waitpid_failed"]})
         if not r["variants"]:
             c.report("nopid:%s:%d" % (name, r["idx"]), "no fork observed for execute %d of scenario %s" % (r["idx"], name), rep, False)
             continue
+        foreign = (" -- the child was reaped by a WNOHANG waitpid that was not asked about this pid (%s): a handler reaps the children of "
+                   "another ProcessManager" % r["foreign_reap"][0]) if r["foreign_reap"] else ""
         if ok.get((r["id"], kind)):
             accepted += 1
         else:
-            c.report("reject:%s:%d" % (name, r["idx"]), "execute %d of scenario %s: the trace of the real ProcessManager is not a run of the %s model: %s" % (
-                r["idx"], name, kind, why.get((r["id"], kind), "")), rep, True)
+            c.report("reject:%s:%d" % (name, r["idx"]), "execute %d of scenario %s: the trace of the real ProcessManager is not a run of the %s model: %s%s" % (
+                r["idx"], name, kind, why.get((r["id"], kind), ""), foreign), rep, True)
         if r["verdict"] != exp:
             wrong += 1
             what = ("command ending with %s reported as %s (expected %s) after the blocking waitpid of ProcessManager::wait failed and its status word was used" % (
                 ("exit code %d" % r["code"]) if r["code"] >= 0 else ("signal %d" % -r["code"]), vname(r["verdict"]), vname(exp)))
-            if r["waitpid_failed"] and kind == "pinned":
+            if r["waitpid_failed"] and kind == "pinned" and not r["foreign_reap"]:
                 if name.startswith("handler-first"):
                     c.report("F8:%s:%d" % (name, r["idx"]), "scenario %s: %s" % (name, what), rep, True)
                 elif f8_multi is None:
                     f8_multi = True
                     c.report("F8:concurrent-managers", "scenario %s: %s" % (name, what), rep, True)
             else:
-                c.report("outcome:%s:%d" % (name, r["idx"]), "scenario %s execute %d: command ending with %d reported as %s (expected %s)" % (
-                    name, r["idx"], r["code"], vname(r["verdict"]), vname(exp)), rep, True)
-    c.coverage["traces_validated_against_impl"] = accepted
+                c.report("outcome:%s:%d" % (name, r["idx"]), "scenario %s execute %d: command ending with %d reported as %s (expected %s)%s" % (
+                    name, r["idx"], r["code"], vname(r["verdict"]), vname(exp), foreign), rep, True)
+    cls, lifetime_ok, lock_ok, acc_n = judge_sig(c, acc_sig, sigruns)
+    c.coverage["traces_validated_against_impl"] = accepted + acc_n
     c.coverage["rule"] = ("fixed single-thread scenarios (plain commands exiting 0/1/3/7/255 or killed by 9/11/15; blocking waitpid held until the SIGCHLD handler "
                           "reaped, with the status word after the failed waitpid chosen as exit0/sig9/unknown/stopped or left alone) + seeded scenarios of 2-16 "
-                          "threads with one ProcessManager each running 2-5 commands with random durations and delays; one evaluation = one execute(); "
-                          "non-trivial = the SIGCHLD handler reaped the child or the blocking waitpid failed")
+                          "threads with one ProcessManager each (or one per command) running 2-5 commands with random durations and delays; one evaluation = "
+                          "one execute(), non-trivial = the SIGCHLD handler reaped the child or the blocking waitpid failed.  Signal-handler part: forced "
+                          "schedules `lifetime` (N rounds: thread 0 inside treatAction while thread 1 destroys its manager), `stale` (SIGTERM after the "
+                          "destruction), `storm P|C` (a SIGCHLD after every acquisition of the mutex outside a handler), `terminate` (SIGTERM with a running "
+                          "child) + the whole log of every scenario; one evaluation = one scenario judged by the acceptor of C30SigModel, non-trivial = a "
+                          "handler was called")
     c.notes.append("code classified as '%s' protocol; executes with a wrong report: %d of %d; executes whose blocking waitpid failed: %d" % (
         kind, wrong, len(allrecs), sum(1 for r in allrecs if r["waitpid_failed"])))
+    c.notes.append("signal-handler protocol observed: %s; handler-lifetime theorem applies: %s; lock-discipline theorems apply: %s" % (cls, lifetime_ok, lock_ok))
     c.notes.append("no source hook needed: the delay point between the isRunning test and waitpid is the entry of the wrapped waitpid")
     files = MODEL + ["C30Proofs.v", "Properties_C30.v"] + (["Properties_C30_pinned.v"] if kind == "pinned" else [])
-    res = c.coq(files, timeout=600)
+    files += SIGMODEL + ["C30SigProofs.v", "Properties_C30_sig.v"] + ([] if (lifetime_ok and lock_ok) else ["Properties_C30_sig_pinned.v"])
+    res = c.coq(files, timeout=900)
     if not res.ok:
         c.coq_failures(res)
 
